@@ -106,3 +106,26 @@ async fn a_failing_closure_emits_nothing_and_unregisters() {
     assert!(!all.iter().any(|x| x.topic == "step.one"), "C15: a frame of a failed invocation appeared");
     assert_eq!(all.iter().filter(|x| x.topic == "boom.unregistered").count(), 1, "C15/C16: exactly one .unregistered");
 }
+
+#[tokio::test(flavor = "multi_thread", worker_threads = 4)]
+async fn environment_and_return_values_of_every_shape() {
+    let (_d, store) = env().await;
+    // C14: environment set by one invocation is visible to every later invocation - also when that invocation returned nothing
+    let _c = register(&store, "count", ZERO_CONTEXT, r#"{run: {|frame| if $frame.topic == "tick" { $env.ticks = (($env.ticks? | default 0) + 1); return }; if $frame.topic == "report" { $"ticks: ($env.ticks? | default 0)" } }}"#).await;
+    for _ in 0..3 { store.append(Frame::builder("tick", ZERO_CONTEXT).build()).unwrap(); }
+    store.append(Frame::builder("report", ZERO_CONTEXT).build()).unwrap();
+    wait_for(&store, |fs| fs.iter().any(|x| x.topic == "count.out"), "count.out").await;
+    let out = store.read_sync(None, None, None).find(|x| x.topic == "count.out").unwrap();
+    let text = String::from_utf8(store.cas_read(out.hash.as_ref().unwrap()).await.unwrap()).unwrap();
+    assert_eq!(text, "\"ticks: 3\"", "C14: environment set by invocations that return nothing must persist");
+    // C15: the return value goes to <name>.out whatever it is - also a frame record that ANOTHER handler produced
+    let src = register(&store, "src", ZERO_CONTEXT, r#"{run: {|frame| if $frame.topic != "go" { return }; "x" }}"#).await;
+    let audit = register(&store, "audit", ZERO_CONTEXT, r#"{run: {|frame| if $frame.topic != "src.out" { return }; $frame }}"#).await;
+    store.append(Frame::builder("go", ZERO_CONTEXT).build()).unwrap();
+    wait_for(&store, |fs| fs.iter().any(|x| x.topic == "audit.out"), "C15: audit.out for a return value that is another handler's frame record").await;
+    let all = quiet(&store).await;
+    let a: Vec<&Frame> = all.iter().filter(|x| x.topic == "audit.out").collect();
+    assert_eq!(a.len(), 1, "C15: exactly one audit.out");
+    assert_eq!(hid(a[0]), audit.id.to_string());
+    let _ = src;
+}
